@@ -17,11 +17,15 @@ Items == { [k |-> "bounds", ps |-> {"T", "U"}], [k |-> "bounds", ps |-> {"T"}], 
            [k |-> "capture_docs", valid |-> TRUE, val |-> "default"], [k |-> "capture_docs", valid |-> TRUE, val |-> "Always"],
            [k |-> "capture_docs", valid |-> TRUE, val |-> "never"], [k |-> "capture_docs", valid |-> FALSE, val |-> "sometimes"], [k |-> "crate"],
            [k |-> "replace_segment"], [k |-> "unknown"] }
-ItemSeqs == UNION {[1..n -> Items] : n \in 0..3}
+\* bounds(..) whose predicates mention T without bounding it: T stays unbound
+IndirectItems == { [k |-> "bounds", ps |-> {}, other |-> <<"assoc">>], [k |-> "bounds", ps |-> {"U"}, other |-> <<"assoc">>],
+                   [k |-> "bounds", ps |-> {"U"}, other |-> <<"qassoc", "vec">>], [k |-> "bounds", ps |-> {"T", "U"}, other |-> <<"assoc">>] }
+ItemSeqs == UNION {[1..n -> Items] : n \in 0..3} \cup UNION {[1..n -> Items \cup IndirectItems] : n \in 1..2}
 VARIABLE x
 Init == IF Mode = "plans" THEN x \in Plans ELSE x \in ItemSeqs
 Next == UNCHANGED x
 Spec == Init /\ [][Next]_x
 EmitPlan == Mode = "plans" => PrintT(<<"PLAN", ToJson([shape |-> x[1], feats |-> SetToSeq(x[2])])>>)
-EmitAttr == Mode = "attrs" => PrintT(<<"ATTR", ToJson([items |-> [i \in 1..Len(x) |-> [x[i] EXCEPT !.ps = IF "ps" \in DOMAIN x[i] THEN SetToSeq(x[i].ps) ELSE <<>>]], accept |-> AttrAccept(x, {"T", "U"})])>>)
+EmitAttr == Mode = "attrs" => PrintT(<<"ATTR", ToJson([items |-> [i \in 1..Len(x) |-> [k |-> x[i].k, ps |-> IF "ps" \in DOMAIN x[i] THEN SetToSeq(x[i].ps) ELSE <<>>, other |-> IF "other" \in DOMAIN x[i] THEN x[i].other ELSE <<>>,
+                                                                              val |-> IF "val" \in DOMAIN x[i] THEN x[i].val ELSE ""]], accept |-> AttrAccept(x, {"T", "U"})])>>)
 =============================================================================
